@@ -27,7 +27,7 @@ func poolSx(pool []vm.VerifConst) Sx {
 		case "val":
 			xs[i] = L(A("val"), ValSx(c.Val))
 		case "fun":
-			xs[i] = L(A("fun"), Name(c.Val.Type.Fun().Name))
+			xs[i] = L(A("fun"), Name(c.Val.Type.Fun().Name), Int(len(c.Val.Type.Fun().Param)), Bool(c.Val.Fun().Lazy))
 		case "thunk":
 			xs[i] = L(A("thunk"), bytesSx(c.Thunk), TySx(c.Ty.Fun().Return))
 		case "type":
@@ -265,6 +265,8 @@ func runC11(r *Run) {
 			return
 		}
 		r.Case(req, L(A("ok"), bytesSx(code), poolSx(pool)))
+		// the extracted verifier on the implementation's bytes
+		r.Case(L(A("verify"), bytesSx(code), poolSx(pool)), Bool(true))
 		r.Count("prog:compiled")
 		r.Nontrivial(c.src)
 		if why := verifyCode(code, pool, names, tbl); why != "" {
